@@ -218,6 +218,9 @@ func scenariosFor(prop string) []scn {
 		v1(flowParams{Sources: 1, Records: 3, Batch: 1, Dests: 1, AckMenu: onlyOK, Procs: pp, Reconf: []string{"A"}, ProcOpenMenu: []string{"ok", "err"}}, 2, 4)
 		v1(flowParams{Sources: 1, Records: 3, Batch: 1, Dests: 2, AckMenu: onlyOK, Procs: pp, Reconf: []string{"A"}, ProcOpenMenu: []string{"ok"}, Stop: "stopwait"}, 2, 3)
 		v1(flowParams{Sources: 1, Records: 3, Batch: 1, Dests: 1, AckMenu: onlyOK, Procs: pp, Reconf: []string{"A", "B"}, ProcOpenMenu: []string{"ok", "err"}}, 2, 3)
+		// the reconfigured processor is attached to a connector (source side / destination side of a fan-out)
+		v1(flowParams{Sources: 1, Records: 3, Batch: 1, Dests: 2, AckMenu: onlyOK, Procs: []procParam{{ID: "pp", Parent: "d1"}}, Reconf: []string{"A"}, ProcOpenMenu: []string{"ok", "err"}}, 2, 3)
+		v1(flowParams{Sources: 2, Records: 2, Batch: 1, Dests: 1, AckMenu: onlyOK, Procs: []procParam{{ID: "pp", Parent: "s0"}}, Reconf: []string{"A"}, ProcOpenMenu: []string{"ok", "err"}}, 1, 2)
 		// the new processor takes a minute to open (slow but responding): whatever the caller is told must be what happened
 		v1(flowParams{Sources: 1, Records: 3, Batch: 1, Dests: 1, AckMenu: onlyOK, Procs: pp, Reconf: []string{"A"}, ProcOpenMenu: []string{"ok", "slow"}}, 2, 3)
 		v1(flowParams{Sources: 1, Records: 3, Batch: 1, Dests: 1, AckMenu: onlyOK, Procs: pp, Apply: []string{"proc"}, ProcOpenMenu: []string{"ok", "slow"}}, 2, 3)
